@@ -3,7 +3,7 @@
    All statements are unbounded: every byte list, every tree of any depth and width, every integer,
    every decimal magnitude.  Model: Engine/Model.v (tied to the code by harness/vh/c18.py). *)
 From PsdV Require Import Base.Prelude Engine.Model Engine.Corr
-  Engine.ProofsLex Engine.ProofsLeaf Engine.ProofsParse Engine.ProofsWrite Engine.ProofsFuel Engine.ProofsCount Engine.ProofsSpace Engine.Embedded Engine.ProofsReparse Engine.ProofsMore.
+  Engine.ProofsLex Engine.ProofsLeaf Engine.ProofsParse Engine.ProofsWrite Engine.ProofsFuel Engine.ProofsCount Engine.ProofsSpace Engine.Embedded Engine.ProofsReparse Engine.ProofsMore Engine.ProofsLayout.
 
 (* ------------------------------------------------------------------ strings *)
 (* 1. the three sequential un-escaping replaces undo the three sequential escaping replaces, for
@@ -230,6 +230,14 @@ Theorem divider_required_refuted :
 Proof. repeat split; vm_compute; reflexivity. Qed.
 Print Assumptions divider_required_refuted.
 
+(* 9e'. conversely every text the tokenizer accepts IS such a layout (the white space that stood before each token,
+        none required at the start or after a string): [ws_ok] is exact *)
+Theorem layout_iff : forall l ts, nobad ts = true ->
+  (tokenize l = ts <->
+   exists ps trail, is_layout l ps trail /\ ws_ok true ps = true /\ map tokof (map snd ps) = ts).
+Proof. exact ProofsLayout.layout_iff. Qed.
+Print Assumptions layout_iff.
+
 (* ------------------------------------------------------------------ the embedded case *)
 (* 9f. RawData.write with the EngineData OBJECT as value writes exactly what it would write for the object's bytes:
        the length field is the count the object's write() returns, and that count is truthful (9b) *)
@@ -322,6 +330,15 @@ Theorem set_kv_semantics : forall k v d,
   (existsb (list_eqb k) (map fst d) = false -> set_kv k v d = d ++ [(k, v)]).
 Proof. exact ProofsMore.set_kv_semantics. Qed.
 Print Assumptions set_kv_semantics.
+
+(* 9m. the Txt2 (TEXT_ENGINE_DATA) tagged block, whose payload is an EngineData2 object: written into the length block
+       with the count write() returns, read back through EngineData2.frombytes - the whole block round-trips *)
+Theorem text_engine_data_block_roundtrip : forall v pad sg key d blk n rest,
+  (pad = 1 \/ pad = 2 \/ pad = 4) -> Model.memz sg Model.model_tb_sigs = true -> wf_tree (TDict d) = true ->
+  Typed.write_payload_block v pad sg key (engine_w Compact d) = Ok (blk, n) ->
+  Typed.read_payload_block parse v pad (blk ++ rest) = Ok (Some (sg, key, untiny_kvs d, rest)).
+Proof. exact Embedded.text_engine_data_block_roundtrip. Qed.
+Print Assumptions text_engine_data_block_roundtrip.
 
 (* 10. the fuel of the model's tokenizer and reader is always sufficient: OutOfFuel is never an outcome *)
 Theorem parse_never_out_of_fuel : forall data, parse data <> Err OutOfFuel.
